@@ -1201,6 +1201,12 @@ def gen(ctx, emit):
     # --- BIP32 test vectors 1-3, every listed path, both spellings, private and public roots
     for seedh, paths in VECTORS.items():
         emit("bip32_master 32 " + seedh)
+    # master-key generation (C09_master_from_seed) on seeds of every length class: 0, 1, 16, 32, 64, 65 bytes
+    # (HMAC-SHA512 pads / hashes keys, not messages: no length is special, which is what is checked), all three kinds
+    for ln in (0, 1, 16, 32, 64, 65):
+        for _ in range(ctx.n(2, 20)):
+            sd = bytes(rng.randrange(256) for _ in range(ln))
+            emit("bip32_master %d %s" % (rng.choice([32, 49, 84]), hx(sd) if sd else "-"))
         for p in paths:
             emit("bip32_path btc 32 %s %s 0" % (seedh, s2h(p)))
             if "H" in p:
